@@ -416,6 +416,11 @@ class QueryPlanner:
         # if subselect_alias is not None:
         #     subselect_alias = subselect_alias.parts[0]
 
+        # the outer query runs in the planner, over the result of the inner one: plan its nested selects separately
+        find_selects = self.get_nested_selects_plan_fnc(self.default_namespace, force=True)
+        select.targets = query_traversal(select.targets, find_selects)
+        query_traversal(select.where, find_selects)
+
         select2 = copy.deepcopy(select.from_table)
         select2.parentheses = False
         select2.alias = None
